@@ -26,6 +26,7 @@ CONSTANTS
   CreateFaults = FALSE
   ReadFaults = TRUE
   TTLRollback = TRUE
+  UpdFields = {"inactive", "expired"}
   LegStatus = {"active"}
   OnlyList = {"p1"}
   Emit = FALSE
